@@ -597,4 +597,112 @@ theorem modeF_scan (rev : Bool) (s l : List F64) (hs : IsSortedF rev s l) (hne :
       have := (keyQ_le_iff _ _).mp this
       omega
 
+/-! ### Min / Max of finite samples are samples -/
+
+/-- Non-NaN floats with the same non-zero key are the same pattern. -/
+theorem eq_of_key_eq {x y : F64} (h : x.key = y.key) (hne : x.key ≠ 0) : x = y := by
+  have hx := ofSM_sign_mag x
+  have hy := ofSM_sign_mag y
+  have mx := mag_lt x
+  have my := mag_lt y
+  unfold key at h hne
+  cases sx : x.sign <;> cases sy : y.sign <;> rw [sx] at h hne hx <;> rw [sy] at h hy <;>
+    simp only [Bool.false_eq_true, if_false, if_true] at h hne
+  · have : x.mag = y.mag := by omega
+    rw [← hx, ← hy, this]
+  · omega
+  · omega
+  · have : x.mag = y.mag := by omega
+    rw [← hx, ← hy, this]
+
+theorem min_unchanged (keep : Bool) (l : List F64) : ∀ s : NumF, (∀ y ∈ l, F64.lt y s.min = false) →
+    (l.foldl (NumF.samplef keep) s).min = s.min := by
+  induction l with
+  | nil => intro s _; rfl
+  | cons x l ih =>
+    intro s h
+    have hx := h x (by simp)
+    have e : (NumF.samplef keep s x).min = s.min := by rw [samplef_min, hx]; rfl
+    rw [List.foldl_cons, ih _ (fun y hy => by rw [e]; exact h y (by simp [hy])), e]
+
+theorem max_unchanged (keep : Bool) (l : List F64) : ∀ s : NumF, (∀ y ∈ l, F64.lt s.max y = false) →
+    (l.foldl (NumF.samplef keep) s).max = s.max := by
+  induction l with
+  | nil => intro s _; rfl
+  | cons x l ih =>
+    intro s h
+    have hx := h x (by simp)
+    have e : (NumF.samplef keep s x).max = s.max := by rw [samplef_max, hx]; rfl
+    rw [List.foldl_cons, ih _ (fun y hy => by rw [e]; exact h y (by simp [hy])), e]
+
+theorem key_maxF64 : maxF64.key = 9218868437227405311 := by decide
+theorem key_negMaxF64 : (F64.neg maxF64).key = -9218868437227405311 := by decide
+
+theorem finite_key_bounds {x : F64} (h : x.isFinite = true) :
+    -9218868437227405311 ≤ x.key ∧ x.key ≤ 9218868437227405311 := by
+  rw [isFinite_iff] at h
+  unfold key; split <;> omega
+
+/-- For a non-empty list of finite samples `Min()` / `Max()` are samples. -/
+theorem minmax_mem_of_finite (keep : Bool) (l : List F64) (hne : l ≠ []) (hf : ∀ x ∈ l, x.isFinite = true) :
+    (runFv keep l).min ∈ l ∧ (runFv keep l).max ∈ l := by
+  have mm := minmax_fold keep l NumF.new isNaN_maxF64 isNaN_negMaxF64
+  simp only [] at mm
+  obtain ⟨_, _, _, _, _, a6, _, _, _, a10⟩ := mm
+  have e1 : NumF.new.min = maxF64 := rfl
+  have e2 : NumF.new.max = F64.neg maxF64 := rfl
+  rw [e1] at a6; rw [e2] at a10
+  refine ⟨?_, ?_⟩
+  · by_cases hex : ∃ y ∈ l, F64.lt y maxF64 = true
+    · exact a6 hex
+    · have hall : ∀ y ∈ l, F64.lt y NumF.new.min = false := by
+        intro y hy
+        cases h : F64.lt y NumF.new.min
+        · rfl
+        · exact absurd ⟨y, hy, h⟩ hex
+      have hmin : (runFv keep l).min = maxF64 := min_unchanged keep l NumF.new hall
+      obtain ⟨y, l', rfl⟩ := List.exists_cons_of_ne_nil hne
+      have hy := hf y (by simp)
+      have hk := finite_key_bounds hy
+      have hlt := hall y (by simp)
+      rw [e1] at hlt
+      have : ¬ (y.key < maxF64.key) := by
+        intro hk2
+        have := (lt_iff_key y maxF64).mpr ⟨not_nan_of_finite hy, isNaN_maxF64, hk2⟩
+        rw [this] at hlt; cases hlt
+      rw [key_maxF64] at this
+      have hyk : y.key = maxF64.key := by rw [key_maxF64]; omega
+      have : y = maxF64 := eq_of_key_eq hyk (by rw [hyk, key_maxF64]; decide)
+      rw [hmin, ← this]; simp
+  · by_cases hex : ∃ y ∈ l, F64.lt (F64.neg maxF64) y = true
+    · exact a10 hex
+    · have hall : ∀ y ∈ l, F64.lt NumF.new.max y = false := by
+        intro y hy
+        cases h : F64.lt NumF.new.max y
+        · rfl
+        · exact absurd ⟨y, hy, h⟩ hex
+      have hmax : (runFv keep l).max = F64.neg maxF64 := max_unchanged keep l NumF.new hall
+      obtain ⟨y, l', rfl⟩ := List.exists_cons_of_ne_nil hne
+      have hy := hf y (by simp)
+      have hk := finite_key_bounds hy
+      have hlt := hall y (by simp)
+      rw [e2] at hlt
+      have : ¬ ((F64.neg maxF64).key < y.key) := by
+        intro hk2
+        have := (lt_iff_key (F64.neg maxF64) y).mpr ⟨isNaN_negMaxF64, not_nan_of_finite hy, hk2⟩
+        rw [this] at hlt; cases hlt
+      rw [key_negMaxF64] at this
+      have hyk : y.key = (F64.neg maxF64).key := by rw [key_negMaxF64]; omega
+      have : y = F64.neg maxF64 := eq_of_key_eq hyk (by rw [hyk, key_negMaxF64]; decide)
+      rw [hmax, ← this]; simp
+
+theorem length_filterMap_add_countP {α β : Type} (f : α → Option β) (l : List α) :
+    (l.filterMap f).length + l.countP (fun e => (f e).isNone) = l.length := by
+  induction l with
+  | nil => rfl
+  | cons x l ih =>
+    cases h : f x with
+    | none => rw [List.filterMap_cons_none h, List.countP_cons_of_pos (by simp [h])]; simp; omega
+    | some v => rw [List.filterMap_cons_some h, List.countP_cons_of_neg (by simp [h])]; simp; omega
+
 end Rare.C07
